@@ -260,3 +260,13 @@ PROPS["C14"] = dict(
     ],
     assumptions=[],
 )
+
+PROPS["C15"] = dict(
+    rule="roots over versions Classic..MoP (cycled) with every list empty / one / several: materials (texture offsets into MOTX), groups with names sharing prefixes and repeated names, portals, portal references, visibility lists incl. empty lists in leading/middle/trailing position, lights, doodad definitions and sets, textures; plus one group file per case (vertices, normals, texture coordinates, indices, batches, vertex colours, doodad references on/off). Root: independent framing walk, MOHD counts recomputed by the Lean model from chunk sizes, MOGI name offsets resolved against MOGN by the model, MOVV/MOVB decoded by the model, parse_root content equal to the input, header counts equal to list lengths, second write byte-identical, convert_root to a second version (all 25 pairs over a run) keeps the content. Group: one MOGP spanning the file, sub-chunks tile it, element counts from chunk sizes equal list lengths. One root in eight carries doodad definitions with arbitrary name offsets (known finding D39). non-trivial = a root that passed all comparisons",
+    trusted_base=COMMON_TB + [
+        "root bounds are derived data in this crate (the parser recomputes them as the union of the group boxes); inputs are generated consistent with that",
+        "group files: the crate has no parser for the legacy WmoGroup the writer takes (parse_group is a stub), so group content is checked through chunk framing and element counts only",
+        "doodad definitions use name offsets that are a fixed point of the writer's renumbering, except in the known-finding sample",
+    ],
+    assumptions=["light and doodad-set records are compared field by field through the parser; liquids and BSP nodes of groups are not generated"],
+)
